@@ -210,6 +210,9 @@ theorem ND_mapDeep (rt : Ty) (f : Val → Outcome Val) (hf : ∀ x, ND (f x)) : 
   | .node _ _ => by rw [mapDeep_nonslice _ _ _ rfl]; exact hf _
   | .nilNode _ => by rw [mapDeep_nonslice _ _ _ rfl]; exact hf _
   | .tag _ => by rw [mapDeep_nonslice _ _ _ rfl]; exact hf _
+  | .raw _ _ => by rw [mapDeep_nonslice _ _ _ rfl]; exact hf _
+  | .date _ _ => by rw [mapDeep_nonslice _ _ _ rfl]; exact hf _
+  | .named _ _ => by rw [mapDeep_nonslice _ _ _ rfl]; exact hf _
   | .map _ => by rw [mapDeep_nonslice _ _ _ rfl]; exact hf _
 theorem ND_mapDeepList (rt : Ty) (f : Val → Outcome Val) (hf : ∀ x, ND (f x)) : ∀ vs, ND (mapDeepList rt f vs)
   | [] => by unfold mapDeepList; exact ND_ok _
